@@ -34,7 +34,7 @@ META = {
 # ------------------------------------------------------------------ mini type language
 
 TYPES = ['int', ['var'], ['list', ['var']], ['opt', ['var']], ['dict', ['var']], ['tuple', ['var']], ['tuplelit', ['var']],
-         ['struct', ['var']], ['box', ['var']], ['annot', ['var']]]
+         ['struct', ['var']], ['box', ['var']], ['annot', ['var']], ['pair', ['var']]]
 CONCRETE = ['int', 'str', 'float']
 VARNAMES = ['T', 'U', 'V', 'W']
 _TV = {n: t.TypeVar(n) for n in VARNAMES}
@@ -45,6 +45,13 @@ def box_class(pane):
     if 'B' not in _BOX:
         _BOX['B'] = grammar.pin(new_class('Box', (pane.PaneBase, t.Generic[_TV['T']]), {'__annotations__': {'item': _TV['T']}, '__module__': 'mc.generated'}))
     return _BOX['B']
+
+
+def pair_class(pane):
+    if 'P' not in _BOX:
+        _BOX['P'] = grammar.pin(new_class('Pair', (pane.PaneBase, t.Generic[_TV['T'], _TV['U']]),
+                                          {'__annotations__': {'first': _TV['T'], 'second': _TV['U']}, '__module__': 'mc.generated'}))
+    return _BOX['P']
 
 
 def subst(ty, binding):
@@ -106,6 +113,8 @@ def build_type(pane, ty):
         return {'k': a}
     if h == 'box':
         return box_class(pane)[a]
+    if h == 'pair':
+        return pair_class(pane)[a, int]        # a two-parameter generic dataclass, partially re-parameterised
     if h == 'annot':
         return t.Annotated[a, Positive]
     raise KeyError(h)
@@ -154,6 +163,8 @@ def sample(ty, good=True):
         return {'k': inner}
     if h == 'box':
         return {'item': inner}
+    if h == 'pair':
+        return {'first': inner, 'second': 1}
     if h == 'annot':
         return inner
     raise KeyError(h)
@@ -189,7 +200,7 @@ def programs(tier):
                             yield idx, [root, lvl]
                             idx += 1
                             # depth 3: restricted alphabet
-                            if oi == 0 and fty == 0 and (tier == 'thorough' or ti in (1, 2, 8)):
+                            if oi == 0 and fty == 0 and (tier == 'thorough' or ti in (1, 2, 8, 10)):
                                 for form2 in ('plain', 'bind_all', 'forward', 'nested_arg'):
                                     for fa2 in ('none', 'add_default', 'redeclare_type'):
                                         for oi2 in ((0, 3, 5) if tier == 'quick' else range(len(OPTIONS))):
@@ -657,6 +668,48 @@ def check_mixins(pane, res):
         if got != want or vals != ('left', 2 if 'Right2' not in label else 2.5):
             core.add_violation(res, {'kind': 'diamond_fields', 'case': label},
                                f"diamond {label}: signature {got} with defaults {vals}; expected {want}", {'mixin': label}, 3)
+    # a plain (non-pane) mixin listed BEFORE the pane base: options still come from the pane base
+    class Describe:
+        def describe(self):
+            return type(self).__name__
+    OBase = type('OBase', (pane.PaneBase,), {'__annotations__': {'fld_a': int, 'fld_b': int}, 'fld_b': 2, '__module__': 'mc.generated'},
+                 frozen=False, out_format='tuple', in_format=('tuple', 'struct'), allow_extra=True, rename='camel')
+    for label, bases in (('Mixed(Describe, OBase)', (Describe, OBase)), ('Mixed(OBase, Describe)', (OBase, Describe))):
+        res['states'] += 1
+        res['evals'] += 1
+        res['validated'] += 1
+        res['nontrivial'].add(f"plain_mixin|{label}")
+        try:
+            M = type('Mixed', bases, {'__annotations__': {'fld_c': int}, 'fld_c': 3, '__module__': 'mc.generated'})
+            x = M.from_data({'fldA': 1, 'zz_unknown': 0})
+            seq = M.from_data([1, 5])
+            setattr(x, 'fld_a', 9)
+            out = pane.into_data(seq, M)
+            got = (x.fld_a, seq.fld_b, out)
+            want = (9, 5, (1, 5, 3))
+        except Exception as e:  # noqa
+            got, want = f"{type(e).__name__}: {core.sstr(e, 100)}", 'options of OBase (frozen=False, tuple layouts, allow_extra, rename=camel) inherited'
+        if got != want:
+            core.add_violation(res, {'kind': 'options_through_plain_mixin', 'case': label},
+                               f"{label}: options of the pane base are not in force in the subclass: got {got!r}, expected {want!r}", {'mixin': label}, 3)
+    # a base with a field it initialises itself (init=False), a subclass appending a field: positional data follows the constructor
+    NBase = type('NBase', (pane.PaneBase,), {'__annotations__': {'x': int, 'y': t.List[int]},
+                                             'y': pane.field(init=False, exclude=True, compare=False, repr=False),
+                                             '__post_init__': lambda self: object.__setattr__(self, 'y', []), '__module__': 'mc.generated'},
+                 in_format=('tuple', 'struct'))
+    NChild = type('NChild', (NBase,), {'__annotations__': {'z': float}, '__module__': 'mc.generated'})
+    res['states'] += 1
+    res['evals'] += 1
+    res['validated'] += 1
+    res['nontrivial'].add('noinit_base')
+    try:
+        got = (str(inspect.signature(NChild)), repr(NChild.from_data([1, 3.5])), repr(NChild.from_data({'x': 1, 'z': 3.5})))
+    except Exception as e:  # noqa
+        got = f"{type(e).__name__}: {core.sstr(e, 100)}"
+    want = ('(x: int, z: float) -> None', 'NChild(x=1, z=3.5)', 'NChild(x=1, z=3.5)')
+    if got != want:
+        core.add_violation(res, {'kind': 'noinit_base_positional'}, f"init=False field in the base, field appended by the subclass: got {got!r}, expected {want!r}",
+                           {'mixin': 'noinit_base'}, 3)
     for label, mk, params, fields in cases:
         res['states'] += 1
         res['evals'] += 1
